@@ -13,6 +13,7 @@ static Obj *current_fn;
 
 static void gen_expr(Node *node);
 static void gen_stmt(Node *node);
+static void gen_discard(Node *node);
 
 __attribute__((format(printf, 1, 2)))
 static void println(char *fmt, ...) {
@@ -154,7 +155,7 @@ static void gen_addr(Node *node) {
     gen_expr(node->lhs);
     return;
   case ND_COMMA:
-    gen_expr(node->lhs);
+    gen_discard(node->lhs);
     gen_addr(node->rhs);
     return;
   case ND_MEMBER:
@@ -244,6 +245,9 @@ static void store(Type *ty) {
     println("  movsd %%xmm0, (%%rdi)");
     return;
   case TY_LDOUBLE:
+    // An assignment is an expression whose value is the stored value,
+    // so keep a copy on the x87 stack.
+    println("  fld %%st(0)");
     println("  fstpt (%%rdi)");
     return;
   }
@@ -829,14 +833,23 @@ static void gen_expr(Node *node) {
     store(node->ty);
     return;
   case ND_STMT_EXPR:
-    for (Node *n = node->body; n; n = n->next)
-      gen_stmt(n);
+    for (Node *n = node->body; n; n = n->next) {
+      // The last expression statement provides the value.
+      if (!n->next && n->kind == ND_EXPR_STMT)
+        gen_expr(n->lhs);
+      else
+        gen_stmt(n);
+    }
     return;
   case ND_COMMA:
-    gen_expr(node->lhs);
+    gen_discard(node->lhs);
     gen_expr(node->rhs);
     return;
   case ND_CAST:
+    if (node->ty->kind == TY_VOID) {
+      gen_discard(node->lhs);
+      return;
+    }
     gen_expr(node->lhs);
     cast(node->lhs->ty, node->ty);
     return;
@@ -1223,6 +1236,14 @@ static void gen_expr(Node *node) {
   error_tok(node->tok, "invalid expression");
 }
 
+// Evaluate an expression only for its side effects. A long double
+// result lives on the x87 register stack and has to be popped there.
+static void gen_discard(Node *node) {
+  gen_expr(node);
+  if (node->ty && node->ty->kind == TY_LDOUBLE)
+    println("  fstp %%st(0)");
+}
+
 static void gen_stmt(Node *node) {
   println("  .loc %d %d", node->tok->file->file_no, node->tok->line_no);
 
@@ -1253,7 +1274,7 @@ static void gen_stmt(Node *node) {
     gen_stmt(node->then);
     println("%s:", node->cont_label);
     if (node->inc)
-      gen_expr(node->inc);
+      gen_discard(node->inc);
     println("  jmp .L.begin.%d", c);
     println("%s:", node->brk_label);
     return;
@@ -1340,7 +1361,7 @@ static void gen_stmt(Node *node) {
     println("  jmp .L.return.%s", current_fn->name);
     return;
   case ND_EXPR_STMT:
-    gen_expr(node->lhs);
+    gen_discard(node->lhs);
     return;
   case ND_ASM:
     println("  %s", node->asm_str);
